@@ -94,6 +94,18 @@ def sharpen(b, rng):
     return b
 
 
+def with_tail(b):
+    """completes a behaviour to: call, toggle the call's entry in the file, reload, same call again (the tail of
+    MC_Authz: MCEdit, MCReload, MCCall) - revocation / grant must take effect for the next call, also for the next
+    message of an open PublishAsync session"""
+    c = b['steps'][0]['call']
+    entry = [c['c'], resource_of(c), action_of(c['m'])]
+    cur = list(b['cfg']['policy'])
+    cur = sorted([e for e in cur if e != entry] if entry in cur else cur + [entry])
+    b['steps'] = [b['steps'][0], {'a': 'EditPolicy', 'policy': cur}, {'a': 'Reload'}, {'a': 'Call', 'call': dict(c)}]
+    return b
+
+
 def to_behaviour(bid, sim):
     b0 = sim[0]['body']
     sv = core.tlaval.state_var
@@ -140,11 +152,11 @@ def features(b, step_index):
     return f
 
 
-def execute(d, behaviours, test='^TestVerifC15$'):
+def execute(d, behaviours, test='^TestVerifC15$', env=None):
     stim = os.path.join(d, 'stim.json')
     trace = os.path.join(d, 'trace-all.ndjson')
     core.write_json(stim, {'behaviours': behaviours})
-    rc, out, wall = core.go_test('server', test, {'VERIF_STIMULI': stim, 'VERIF_TRACE_OUT': trace},
+    rc, out, wall = core.go_test('server', test, dict({'VERIF_STIMULI': stim, 'VERIF_TRACE_OUT': trace}, **(env or {})),
                                  timeout=1700, subs=['c15'])
     if rc != 0 or not os.path.exists(trace):
         raise core.Inconclusive('harness failed rc=%s: %s' % (rc, out[-3000:]))
@@ -188,8 +200,13 @@ def run(rep, tier, seed, replay):
     stats = {}
     if replay:
         behaviours = replay['replay']['behaviours']
+        mode = behaviours[0]['cfg'].get('mode', '')
         with core.scratch('c15') as d:
-            trace, methods, lines = execute(d, behaviours)
+            if mode.startswith('tls'):
+                env = {'VERIF_C15_ENFORCER': mode[4:]} if mode.startswith('tls-') else None
+                trace, methods, lines = execute(d, behaviours, test='^TestVerifC15TLS$', env=env)
+            else:
+                trace, methods, lines = execute(d, behaviours)
             judge(rep, trace, lines, behaviours, stats)
         rep.cov['rule'] = 'replay of a saved behaviour'
         rep.cov['samples'] = behaviours[:1]
@@ -219,7 +236,7 @@ def run(rep, tier, seed, replay):
     for b in cands:
         by_stratum.setdefault(stratum(b), []).append(b)
     per = 1 if tier == 'quick' else 4
-    budget = 240 if tier == 'quick' else 1500
+    budget = 200 if tier == 'quick' else 1500
     chosen = []
     keys = sorted(by_stratum, key=str)
     rng.shuffle(keys)
@@ -232,6 +249,10 @@ def run(rep, tier, seed, replay):
         rng.shuffle(head)
         chosen += head[:per]
     chosen = [sharpen(b, rng) for b in chosen[:budget]]
+    for b in chosen:
+        m = b['steps'][0]['call']['m']
+        if len(b['steps']) < 4 and (m in ('PublishAsync', 'Subscribe') or rng.random() < 0.3):
+            with_tail(b)
     # methods the model does not know are called generically by a client without any entry (added below after reflection)
     for n, b in enumerate(chosen):
         b['id'] = n + 1
@@ -273,6 +294,29 @@ def run(rep, tier, seed, replay):
             judge(rep, trace3, lines3, pick, stats)
         stats['tls'] = len(pick)
         chosen += pick
+        # configuration route "authorisation enabled, policy / model path missing": the server builds no enforcer;
+        # every call (one per method, over TLS) must be refused
+        noenf = []
+        for route in ('nopolicy', 'nomodel'):
+            grp = []
+            seen_m = set()
+            for b in tls_b:
+                m = b['steps'][0]['call']['m']
+                if m in seen_m:
+                    continue
+                seen_m.add(m)
+                nb = copy.deepcopy(b)
+                nb['id'] = 200000 + len(noenf) + len(grp)
+                nb['cfg']['policy'] = []
+                nb['cfg']['mode'] = 'tls-' + route
+                nb['steps'] = [nb['steps'][0]]
+                grp.append(nb)
+            if grp:
+                trace4, _, lines4 = execute(d, grp, test='^TestVerifC15TLS$', env={'VERIF_C15_ENFORCER': route})
+                judge(rep, trace4, lines4, grp, stats)
+            noenf += grp
+        stats['noenf'] = len(noenf)
+        chosen += noenf
     if stats.get('drifting'):
         core.write_json(os.path.join(core.BUILD, 'drift-C15.json'), {'replay': {'behaviours': stats['drifting'][:20]}})
     phases['judge'] = round(time.time() - t0, 1)
@@ -281,6 +325,7 @@ def run(rep, tier, seed, replay):
     rep.cov['api_methods_unknown_to_model'] = unknown
     rep.cov['model_methods_missing_in_api'] = missing
     rep.cov['behaviours_over_tls'] = stats.get('tls', 0)
+    rep.cov['behaviours_without_enforcer'] = stats.get('noenf', 0)
     rep.cov['strata_available'] = len(by_stratum)
     rep.cov['strata_executed'] = len({stratum(b) for b in chosen if b['steps'][0]['call']['m'] in MODEL_METHODS})
     rep.cov['traces_validated_against_impl'] = len(chosen)
